@@ -595,6 +595,27 @@ pub fn many_failures_doc(rng: &mut Rng) -> String {
     s
 }
 
+/// Text a transport might be tempted to decode or re-encode: non-ASCII of every UTF-8 length,
+/// plus signs, percent escapes, ampersand entities.
+pub fn intl_doc(rng: &mut Rng) -> String {
+    let words = ["caf\u{e9}", "na\u{ef}ve", "\u{2192}", "\u{2713}", "\u{1f600}", "1+1=2", "100%41", "%20", "a+b", "\u{dc}n\u{ef}", "x%2By", "\u{3b1}\u{3b2}\u{3b3}", "&amp;", "+"];
+    let mut s = String::from("<svg>\n");
+    for i in 0..2 + rng.usize(5) {
+        let mut t = String::new();
+        for _ in 0..1 + rng.usize(5) {
+            t.push_str(*rng.pick(&words[..]));
+            t.push(' ');
+        }
+        match rng.below(3) {
+            0 => s.push_str(&format!("  <rect xy=\"0 {}\" wh=\"40 8\" text=\"{}\"/>\n", i * 10, t.trim())),
+            1 => s.push_str(&format!("  <text xy=\"0 {}\">{}</text>\n", i * 10, t.trim())),
+            _ => s.push_str(&format!("  <rect xy=\"0 {}\" wh=\"{{{{10+{}}}}} 8\" data-k=\"{}\"/>\n", i * 10, rng.below(20), t.trim())),
+        }
+    }
+    s.push_str("</svg>\n");
+    s
+}
+
 pub const THEMES: &[&str] = &["default", "bold", "fine", "glass", "light", "dark"];
 
 /// A configuration with limits at or below their defaults.
